@@ -1093,7 +1093,7 @@ def call_other(api, A, p):
     np.random.seed(p['npseed'])
     n = A.shape[0]
     if api == 'evolution':
-        B = {'none': None, 'ones': np.ones((n, 1), dtype=A.dtype), 'vec': (1.0 + (np.arange(n) % 3)).reshape(-1, 1).astype(A.dtype),
+        B = _g_bmat(p, A.dtype) if isinstance(p['B'], list) else {'none': None, 'ones': np.ones((n, 1), dtype=A.dtype), 'vec': (1.0 + (np.arange(n) % 3)).reshape(-1, 1).astype(A.dtype),
              'veczero': (np.arange(n) % 3).reshape(-1, 1).astype(A.dtype),
              'wide': (10.0 ** ((np.arange(n) * 3) % 5 - 2)).reshape(-1, 1).astype(A.dtype),
              'two': np.column_stack([np.ones(n), np.arange(n) - (n - 1) / 2.0]).astype(A.dtype),
@@ -2126,6 +2126,468 @@ def run_part_f(ctx, count, count_x):
                  sample={'api': 'E40:energy', 'fmt': A.format, 'n': A.shape[0], **p} if ctx.evaluations % 499 == 0 else None)
         if not _energy_x_finish(ctx, line, A, p, S, rec, o):
             judge_other(ctx, A, 'energy', p)
+
+
+# ------------------------------------------------------------------------------------------------
+# part G (extension E44): the WHOLE of evolution_strength_of_connection beyond part E, vs the Lean model of
+# Model/ExtC14YEvol.lean (ops ext_c14y_*): several candidate vectors (NullDim > 1: the kernel evolution_strength_helper with its
+# local pseudo-inverse solves, modelled with the exact Moore-Penrose inverse), every k (k = 1, k not a power of two, k = 2^m),
+# epsilon = inf, proj_type l2 / D_A, BSR input (mask restricted to the same PDE, block_flag, tobsr + min_blocks) and complex input.
+# Only the spectral-radius estimate is recorded from the real call.  Stages compared: Atilde handed to the helper; the helper on
+# its OBSERVED input (kernel vs model, no accumulated error); the strength values at apply_distance_filter; the returned matrix.
+# Decisions that are within rounding of a threshold in the exact model (weak ratio, angle, near-perfect connection, the zhat
+# zero filter, the singular-value cutoff of svd_solve / pinv_array, ties of the drop tolerance) are counted as near_skipped.
+# ------------------------------------------------------------------------------------------------
+
+WK8 = Fr(1e-8)
+TOLZ = Fr(1e6 * float(np.finfo(float).eps))
+
+
+def _g_bmat(p, dtype):
+    raw = p['B']
+    if np.dtype(dtype).kind == 'c':
+        return np.array([[complex(a, b) for a, b in row] for row in raw], dtype=dtype)
+    return np.array(raw, dtype=dtype)
+
+
+def g_case(rng, t):
+    cplx = (t % 3 == 2)
+    fmt = 'bsr' if t % 4 == 1 else 'csr'
+    kind = str(rng.choice(['mmat', 'mmat', 'mixed', 'nonsym', 'nspat']))
+    if fmt == 'bsr':
+        bs = int(rng.choice([1, 2, 2, 3]))
+        N = int(rng.integers(1, 5))
+        n = N * bs
+    else:
+        bs, n = 1, int(rng.integers(1, 9))
+    M = _sym_matrix(rng, n, cplx, kind)
+    feats = {'G:matrix:' + kind, f'G:{fmt}:{"c" if cplx else "r"}'}
+    if rng.random() < 0.12 and n > 1:
+        q = int(rng.integers(n))
+        M[q, q] = 0
+        feats.add('G:missing_diag')
+    if fmt == 'bsr':
+        A = sp.bsr_array(M, blocksize=(bs, bs))
+        A.indptr = A.indptr.astype(np.int32)
+        A.indices = A.indices.astype(np.int32)
+        A.sort_indices()
+    else:
+        A = gen.int32csr(sp.csr_array(M))
+        if rng.random() < 0.1 and A.nnz > n:
+            A.data[int(rng.integers(A.nnz))] = 0.0          # an explicitly stored zero
+            feats.add('G:stored_zero')
+    if rng.random() < 0.2:
+        A.data = A.data * SCALE_P2[int(rng.integers(len(SCALE_P2)))]
+        feats.add('G:global_scale')
+    K = int(rng.choice([1, 2, 2, 2, 3, 3]))
+    x = np.arange(n) - (n - 1) // 2
+    bk = str(rng.choice(['poly', 'rand', 'rand', 'alt']))
+    if bk == 'poly':
+        Br = np.column_stack([np.ones(n), x, x * x])[:, :K].astype(float)
+    elif bk == 'alt':
+        Br = np.column_stack([np.ones(n), np.arange(n) % 2, (np.arange(n) % 3 == 0)])[:, :K].astype(float)
+    else:
+        Br = rng.integers(-2, 4, size=(n, K)).astype(float)
+    if K == 1 and rng.random() < 0.5:
+        Br = np.where(Br == 0, 0.0 if rng.random() < 0.3 else 1.0, Br)
+    if cplx:
+        Bi = rng.integers(-1, 2, size=(n, K)).astype(float) * (rng.random() < 0.8)
+        Braw = [[[float(a), float(b)] for a, b in zip(r, s)] for r, s in zip(Br, Bi)]
+    else:
+        Braw = Br.tolist()
+    feats.add(f'G:NullDim:{K}')
+    k = int(rng.choice([1, 1, 2, 3, 3, 4, 5, 6, 7, 8]))
+    feats.add('G:k:' + ('1' if k == 1 else 'pow2' if k & (k - 1) == 0 else 'other'))
+    p = {'npseed': int(rng.integers(2 ** 31)), 'epsilon': float(rng.choice([1.0, 2.0, 4.0, 10.0, np.inf, np.inf])), 'k': k,
+         'proj_type': str(rng.choice(['l2', 'D_A'])), 'symmetrize_measure': bool(rng.integers(2)),
+         'block_flag': bool(fmt == 'bsr' and rng.integers(2)), 'B': Braw}
+    if p['epsilon'] == np.inf:
+        feats.add('G:epsilon_inf')
+    return A, p, feats, K
+
+
+def _call_spied_g(A, p):
+    """the real function with pass-through wrappers recording the spectral-radius estimate, the arguments / result of
+    evolution_strength_helper and the argument of apply_distance_filter"""
+    from pyamg import strength as ST
+    rec = {'rho': [], 'helper': [], 'filt': []}
+    o_rho, o_f, o_h = ST.approximate_spectral_radius, ST.amg_core.apply_distance_filter, ST.amg_core.evolution_strength_helper
+
+    def s_rho(M, *a, **kw):
+        r = o_rho(M, *a, **kw)
+        rec['rho'].append(r)
+        return r
+
+    def s_f(n_, eps_, ip_, ix_, dx_):
+        rec['filt'].append((np.array(ip_), np.array(ix_), np.array(dx_)))
+        return o_f(n_, eps_, ip_, ix_, dx_)
+
+    def s_h(Sx, Sp, Sj, nrows, x, y, b, bdbc, nd, tol):
+        h = {'in': np.array(Sx), 'p': np.array(Sp), 'j': np.array(Sj), 'x': np.array(x), 'y': np.array(y), 'b': np.array(b),
+             'nd': int(nd), 'tol': float(tol)}
+        rec['helper'].append(h)
+        r = o_h(Sx, Sp, Sj, nrows, x, y, b, bdbc, nd, tol)
+        h['out'] = np.array(Sx)
+        return r
+    ST.approximate_spectral_radius = s_rho
+    ST.amg_core.apply_distance_filter, ST.amg_core.evolution_strength_helper = s_f, s_h
+    try:
+        S = call_other('evolution', A.copy(), p)
+    finally:
+        ST.approximate_spectral_radius = o_rho
+        ST.amg_core.apply_distance_filter, ST.amg_core.evolution_strength_helper = o_f, o_h
+    return S, rec
+
+
+def _g_enc(xs, cplx):
+    return (enc_crats if cplx else enc_rats)(list(np.asarray(xs).ravel()))
+
+
+def part_g(ctx, count):
+    rng = ctx.np_rng
+    items = []
+    tiny = TINY['float64']
+    for t in range(count):
+        A, p, feats, K = g_case(rng, t)
+        for f in feats:
+            ctx.feat(f)
+        cplx = _cplx(A)
+        try:
+            S, rec = _call_spied_g(A, p)
+        except Exception:
+            judge_other(ctx, A, 'evolution', p)        # the oracle reports the exception
+            continue
+        rho = rec['rho'][0] if len(rec['rho']) == 1 else None
+        if (not sp.issparse(S) or rho is None or not np.isfinite(rho) or (np.iscomplexobj(rho) and np.imag(rho) != 0)
+                or not np.real(rho) > 0):
+            ctx.feat('G:skipped:no_spectral_radius')
+            judge_other(ctx, A, 'evolution', p)
+            continue
+        c = 1.0 / float(np.real(rho))
+        n = A.shape[0]
+        bs = A.blocksize[0] if A.format == 'bsr' else 1
+        B = _g_bmat(p, A.dtype)
+        eps = 'inf' if p['epsilon'] == np.inf else enc_rat(p['epsilon'])
+        kd = 'c' if cplx else 'r'
+        line = (f'ext_c14y_evol {kd} {A.format} {enc_rat(BIG64)} {enc_rat(tiny)} {eps} {enc_rat(WK)} {enc_rat(WK8)} {enc_rat(SQE)} '
+                f'{enc_rat(WK)} {enc_rat(TOLZ)} {enc_rat(c)} {p["k"]} {int(p["symmetrize_measure"])} {int(p["proj_type"] == "D_A")} '
+                f'{int(p["block_flag"])} {K} {_g_enc(B, cplx)} {n} {bs} {enc_ints(A.indptr)} {enc_ints(A.indices)} {_g_enc(A.data, cplx)}')
+        hline = None
+        dA = np.asarray(A.diagonal()) if p['proj_type'] == 'D_A' else np.ones(n, dtype=A.dtype)
+        if K > 1 and len(rec['helper']) == 1:
+            h = rec['helper'][0]
+            hline = (f'ext_c14y_helper {kd} {enc_rat(WK8)} {enc_rat(SQE)} {enc_rat(WK)} {enc_rat(TOLZ)} {K} {_g_enc(dA, cplx)} '
+                     f'{_g_enc(B, cplx)} {n} {enc_ints(h["p"])} {enc_ints(h["j"])} {_g_enc(h["in"].astype(A.dtype), cplx)}')
+        items.append((line, hline, A, p, S, rec, K, B, dA))
+    return items
+
+
+def _dec_rows_g(tok, cplx=False):
+    """'sp;sj;sx' -> {(i, j): value}; complex values come as re|im"""
+    a, b, c = tok.split(';')
+    ip = [int(t) for t in a.split(',')]
+    ix = [] if b == '-' else [int(t) for t in b.split(',')]
+    if c == '-':
+        vx = []
+    elif cplx:
+        vx = [complex(float(Fr(t.split('|')[0])), float(Fr(t.split('|')[1]))) for t in c.split(',')]
+    else:
+        vx = [Fr(t) for t in c.split(',')]
+    return {(i, ix[jj]): vx[jj] for i in range(len(ip) - 1) for jj in range(ip[i], ip[i + 1])}
+
+
+def _cfr(v):
+    v = complex(v)
+    return (Fr(v.real), Fr(v.imag))
+
+
+def _cmulf(a, b):
+    return (a[0] * b[0] - a[1] * b[1], a[0] * b[1] + a[1] * b[0])
+
+
+def _g_lhs_exact(B, dA, K, i, cols):
+    """the (K+1)x(K+1) matrix of the local problem of evolution_strength_helper, exactly (pairs of Fractions)"""
+    Bx = [[_cfr(v) for v in r_] for r_ in B]
+    dx = [_cfr(v) for v in dA]
+    cj = lambda a: (a[0], -a[1])
+    L = [[(Fr(0), Fr(0)) for _ in range(K + 1)] for _ in range(K + 1)]
+    for m in range(K):
+        for q in range(m, K):
+            s = (Fr(0), Fr(0))
+            for j in cols:
+                t_ = _cmulf(cj(Bx[j][m]), _cmulf(dx[j], Bx[j][q]))
+                s = (s[0] + 2 * t_[0], s[1] + 2 * t_[1])
+            L[m][q] = s
+            if q > m:
+                L[q][m] = cj(s)
+        L[K][m] = Bx[i][m]
+        L[m][K] = _cmulf(dx[i], cj(Bx[i][m]))
+    return L
+
+
+def _g_rank(Lx):
+    """exact rank of a matrix of Gaussian rationals (through its real 2x2-block embedding)"""
+    m = len(Lx)
+    M = [[Fr(0)] * (2 * m) for _ in range(2 * m)]
+    for a in range(m):
+        for b in range(m):
+            re, im = Lx[a][b]
+            M[a][b], M[a][m + b], M[m + a][b], M[m + a][m + b] = re, -im, im, re
+    rk = 0
+    for c in range(2 * m):
+        piv = next((r_ for r_ in range(rk, 2 * m) if M[r_][c] != 0), None)
+        if piv is None:
+            continue
+        M[rk], M[piv] = M[piv], M[rk]
+        for r_ in range(rk + 1, 2 * m):
+            if M[r_][c] != 0:
+                f = M[r_][c] / M[rk][c]
+                M[r_] = [x - f * y for x, y in zip(M[r_], M[rk])]
+        rk += 1
+    return rk // 2
+
+
+def _g_analyse(Pf, n, B, dA, K):
+    """float re-computation of the strength decisions from rows of Atilde {(i, j): value}: -> (near, kap) with `near` = some
+    decision of the exact model is within rounding of its threshold, kap[(i, j)] = amplification of relative errors"""
+    wk, sqe, tolz = float(WK), float(SQE), float(TOLZ)
+    rows = {i: sorted((j, complex(v)) for (r, j), v in Pf.items() if r == i) for i in range(n)}
+    kap = {}
+    near = False
+    for i in range(n):
+        row = rows[i]
+        if not row:
+            continue
+        sc = max(abs(v) for _, v in row)
+        if any(abs(v) < 1e-5 * sc for _, v in row):
+            near = True                     # an entry of Atilde that is tiny in its row: eliminate_zeros / ratios are unreliable
+            continue
+        if K == 1:
+            b = np.where(B[:, 0] == 0, 1.0, B[:, 0])
+            d = dict(row).get(i, 0.0)
+            for j, x in row:
+                if d == 0:
+                    kap[(i, j)] = 1.0
+                    continue
+                z = d / b[i] * b[j]
+                ratio = z / x
+                ang = z.real * x.real + z.imag * x.imag
+                if abs(abs(ratio) - wk) <= 1e-6 * wk:
+                    near = True
+                if abs(ratio) >= wk and abs(ang) <= 1e-9 * abs(z) * abs(x):
+                    near = True                   # the angle test `angle < 0` on a (numerically) right angle
+                v = abs(1 - ratio)
+                if i != j and v < 1e-11 and abs(ratio) >= wk and ang >= 0:
+                    near = True                   # ratio == 1 up to rounding: 0 (eliminated) or 1e-4 (near perfect)
+                if abs(v - sqe) <= 1e-4 * sqe:
+                    near = True
+                kap[(i, j)] = (1 + abs(ratio)) * (1 + sc / abs(x) + sc / abs(d)) / max(v, sqe) if v >= sqe else 1.0
+            continue
+        if len(row) <= K:
+            for j, _ in row:
+                kap[(i, j)] = 1.0
+            continue
+        cols = [j for j, _ in row]
+        z = np.array([v for _, v in row])
+        Bi = B[cols, :].astype(complex)
+        dAi = np.asarray(dA, dtype=complex)
+        Lx = _g_lhs_exact(B, dA, K, i, cols)
+        L = np.array([[complex(float(a), float(b)) for a, b in r_] for r_ in Lx])
+        R = np.zeros(K + 1, dtype=complex)
+        R[:K] = 2.0 * ((dAi[cols, None] * np.conj(Bi)).T @ z)
+        R[K] = dict(row).get(i, 1.0)
+        sv = np.linalg.svd(L, compute_uv=False)
+        if not np.isfinite(sv).all() or sv[0] == 0:
+            near = True
+            continue
+        # svd_solve drops singular values below 50 eps^(3/4) sigma_max ~ 1e-10 sigma_max; the model uses the exact pseudo-inverse:
+        # they agree when the singular values above 1e-6 sigma_max are exactly rank(LHS) many and the others are rounding noise
+        if int((sv > 1e-6 * sv[0]).sum()) != _g_rank(Lx) or ((sv <= 1e-6 * sv[0]) & (sv > 1e-12 * sv[0])).any():
+            near = True
+            continue
+        condL = sv[0] / sv[sv >= 1e-6 * sv[0]].min()
+        xs = np.linalg.pinv(L, rcond=1e-9) @ R
+        zh = Bi @ xs[:K]
+        mz = np.abs(zh).max()
+        tl = tolz * mz
+        zh2 = []
+        for v in zh:
+            re, im = v.real, v.imag
+            for part in (re, im):
+                if 1e-3 * tl < abs(part) < 1e3 * tl:
+                    near = True
+            zh2.append(complex(0.0 if abs(re) < tl else re, 0.0 if abs(im) < tl else im))
+        for (j, x), v in zip(row, zh2):
+            if j == i:
+                kap[(i, j)] = 1.0
+                continue
+            ratio = v / x
+            nr = abs(ratio) ** 2
+            if abs(nr - 1e-8) <= 1e-3 * 1e-8:
+                near = True
+            if nr <= 1e-8:
+                kap[(i, j)] = 1.0
+                continue
+            dp = v.real * x.real + v.imag * x.imag
+            if abs(dp) <= 1e-8 * abs(v) * abs(x):
+                near = True
+            if dp < 0:
+                kap[(i, j)] = 1.0
+                continue
+            err = abs(1 - ratio)
+            if abs(err - sqe) <= 1e-3 * sqe:
+                near = True
+            # a value that is exactly 0 in the model (z in the span of B_i) is ~1e-16 in floats: both below sqrt(eps) -> 1e-4
+            kap[(i, j)] = 1.0 if err < sqe else 1.0 + condL * (mz + sc) / abs(x) / err
+    return near, kap
+
+
+def _g_finish(ctx, item, o, oh):
+    line, hline, A, p, S, rec, K, B, dA = item
+    case = case_of(A, 'evolution', **p)
+    cplx = _cplx(A)
+    n = A.shape[0]
+    bs = A.blocksize[0] if A.format == 'bsr' else 1
+    if o == 'reject':
+        ctx.corr('E44 evolution model rejects the input (exact pseudo-inverse failed)', case, o, enc_csr(sp.csr_array(S)))
+        return False
+    try:
+        t_P, t_meas, t_res = o.split('#')
+        P, meas, res = _dec_rows_g(t_P, cplx), _dec_rows_g(t_meas), _dec_rows_g(t_res)
+    except Exception:
+        ctx.corr('E44 evolution model (malformed reply)', case, o, enc_csr(sp.csr_array(S)))
+        return False
+    Pf = {k2: complex(v) for k2, v in P.items()}
+    if p['block_flag']:
+        # Dinv = pinv_array of the diagonal blocks (cutoff relative to sigma_max): the model uses the exact pseudo-inverse; they
+        # agree when the clearly non-zero singular values are exactly rank-many and the others are rounding noise
+        Ad = A.toarray()
+        for I in range(n // bs):
+            blk = Ad[I * bs:(I + 1) * bs, I * bs:(I + 1) * bs]
+            sv = np.linalg.svd(blk, compute_uv=False)
+            if sv[0] > 0 and (int((sv > 1e-6 * sv[0]).sum()) != _g_rank([[_cfr(v) for v in r_] for r_ in blk])
+                              or ((sv <= 1e-6 * sv[0]) & (sv > 1e-12 * sv[0])).any()):
+                ctx.near_skipped += 1
+                ctx.feat('G:near_threshold:block_pinv')
+                return True
+    # --- the kernel on its observed input (K > 1)
+    if K > 1:
+        if len(rec['helper']) != 1 or hline is None:
+            ctx.corr('E44: evolution_strength_helper not called exactly once for NullDim > 1', case, o, '')
+            return False
+        h = rec['helper'][0]
+        # the arrays handed to the kernel are the ones the model is parametrised with
+        y_exp = np.ravel((dA[:, None] * np.conj(B)).T)
+        bdb = []
+        for a in range(K):
+            for b_ in range(a, K):
+                bdb.append(2.0 * (np.conj(B[:, a]) * (dA * B[:, b_])))
+        b_exp = np.ravel(np.column_stack(bdb))
+        if not (np.array_equal(np.ravel(h['x']), np.ravel(B)) and np.array_equal(h['y'], y_exp) and np.array_equal(h['b'], b_exp)
+                and h['nd'] == K and h['tol'] == float(TOLZ)):
+            ctx.corr('E44: the arguments B / DB / BDB / NullDim / tol of evolution_strength_helper are not the ones of the model',
+                     case, '', '')
+            return False
+        hin = _arr_dict_g(h['p'], h['j'], h['in'])
+        hout = {k2: float(np.real(v)) for k2, v in _arr_dict_g(h['p'], h['j'], h['out']).items() if v != 0}
+        if any(np.imag(v) != 0 for v in _arr_dict_g(h['p'], h['j'], h['out']).values()):
+            ctx.corr('E44: evolution_strength_helper returned a strength value with an imaginary part', case, '', enc_out(h['p'], h['j'], h['out']))
+            return False
+        nearh, kaph = _g_analyse(hin, n, B, dA, K)
+        if nearh:
+            ctx.near_skipped += 1
+            ctx.feat('G:near_threshold:helper_observed_input')
+        else:
+            try:
+                mh = _dec_rows_g(oh)
+            except Exception:
+                ctx.corr('E44 helper model (malformed reply / reject)', case, oh, enc_out(h['p'], h['j'], h['out']))
+                return False
+            ok, worst = _cmp_dict(mh, hout, lambda k2: min(1e-6, 4e-13 * kaph.get(k2, 1.0)))
+            if not ok:
+                ctx.corr('evolution_strength_helper on its observed input (model helperRow)', case, oh, enc_out(h['p'], h['j'], h['out']))
+                return False
+            ctx.feat('G:helper:compared')
+        # --- Atilde handed to the helper vs the model's Atilde
+        scale = {i: max([abs(v) for (r, j), v in Pf.items() if r == i] + [abs(v) for (r, j), v in hin.items() if r == i] + [1e-300])
+                 for i in range(n)}
+        for k2 in set(Pf) | set(hin):
+            m_, v_ = Pf.get(k2, 0.0), hin.get(k2, 0.0)
+            if abs(m_ - v_) > 4e-13 * max(1.0, scale[k2[0]]):
+                ctx.corr('Atilde handed to evolution_strength_helper (model atildeOf)', case, t_P, enc_out(h['p'], h['j'], h['in']))
+                return False
+            if (m_ == 0) != (v_ == 0):
+                ctx.near_skipped += 1
+                ctx.feat('G:near_threshold:atilde_zero')
+                return True
+    near, kap = _g_analyse(Pf, n, B, dA, K)
+    if near:
+        ctx.near_skipped += 1
+        ctx.feat('G:near_threshold:strength')
+        return True
+    kmax = max(list(kap.values()) + [1.0])
+    if 1e-12 * kmax > 1e-7:
+        ctx.feat('G:skipped:ill_conditioned')
+        ctx.near_skipped += 1
+        return True
+    # --- strength values at the drop-tolerance filter
+    if p['epsilon'] != np.inf:
+        if len(rec['filt']) != 1:
+            ctx.corr('E44: apply_distance_filter not called exactly once for finite epsilon', case, o, '')
+            return False
+        fp, fx, fd = rec['filt'][0]
+        obs = _arr_dict(fp, fx, np.asarray(fd).real)
+        ok, worst = _cmp_dict(meas, obs, lambda k2: min(1e-6, 4e-13 * kap.get(k2, 1.0)), ignore_diag=True)
+        if not ok:
+            ctx.corr('evolution strength values at apply_distance_filter (model evMeasureG)', case, t_meas, enc_out(fp, fx, fd))
+            return False
+        eps = p['epsilon']
+        for i in range(n):
+            offd = [float(v) for (r, j), v in meas.items() if r == i and j != i]
+            if offd and eps != 1.0:
+                thr = eps * min(offd)
+                if any(abs(v - thr) <= 1e-6 * thr for v in offd):
+                    ctx.near_skipped += 1
+                    ctx.feat('G:near_threshold:epsilon')
+                    return True
+    elif len(rec['filt']) != 0:
+        ctx.corr('E44: apply_distance_filter called although epsilon = inf', case, o, '')
+        return False
+    # --- the returned matrix
+    Sd = sp.csr_array(S).copy()
+    Sd.sum_duplicates()
+    Sd.sort_indices()
+    impl = _arr_dict(Sd.indptr, Sd.indices, Sd.data)
+    tol_r = 1e-12 * kmax
+    ok, worst = _cmp_dict(res, impl, tol_r)
+    if not ok:
+        ctx.corr('evolution_strength_of_connection (E44 model evolFullG / evolFullBsr vs the returned matrix)', case, t_res, enc_csr(Sd))
+        return False
+    ctx.rel_err(worst * tol_r)
+    ctx.feat('G:compared')
+    ctx.feat(f'G:compared:{A.format}:{"c" if cplx else "r"}:K{K}:k{"1" if p["k"] == 1 else "pow2" if p["k"] & (p["k"] - 1) == 0 else "other"}')
+    return True
+
+
+def _arr_dict_g(ip, ix, dx):
+    return {(i, int(ix[jj])): complex(dx[jj]) for i in range(len(ip) - 1) for jj in range(ip[i], ip[i + 1])}
+
+
+def run_part_g(ctx, count):
+    items = part_g(ctx, count)
+    lines = [it[0] for it in items]
+    hl = [it[1] for it in items if it[1] is not None]
+    outs = _lean(ctx, lines + hl)
+    houts = iter(outs[len(lines):])
+    for it, o in zip(items, outs[:len(lines)]):
+        oh = next(houts) if it[1] is not None else None
+        A, p = it[2], it[3]
+        N = A.shape[0] // (A.blocksize[0] if A.format == 'bsr' else 1)
+        ctx.case(key=_key(it[0]), nontrivial=bool(A.nnz > N),
+                 sample={'api': 'E44:evolution', 'fmt': A.format, 'n': A.shape[0], **{k2: v for k2, v in p.items() if k2 != 'B'}}
+                 if ctx.evaluations % 499 == 0 else None)
+        if not _g_finish(ctx, it, o, oh):
+            judge_other(ctx, A, 'evolution', p)         # independent oracle of the property on the same input
 
 
 def corr_parts(ctx, na, nb, nd=0):
